@@ -156,10 +156,11 @@ def r2(repo, res, canon, pc, logic, plogic):
         if A.is_const() and A.const == 0:
             continue
         if split:
-            mn = 'unpack(BatchProcessing.resource_split[%s.id])' % h.params[2]
+            mn = 'BatchProcessing.resource_split[%s.id][0]' % h.params[2]
             # non-zero result: available >= the observation's own minimum, result = min(available, max)
             ge_min = lit_lt(avail, mn).neg() in must
-            shape = repr(A).startswith('min(') and avail in repr(A) and mn in repr(A)
+            mxl = 'BatchProcessing.resource_split[%s.id][1]' % h.params[2]
+            shape = A == minmax_term('min', [Affine({avail: 1}), Affine({mxl: 1})])
             if not ge_min:
                 okb, why = False, ('with a per-observation split a non-zero reservation is returned without having '
                                    'established available >= the observation\'s own minimum')
